@@ -61,7 +61,7 @@ def _case():
     @st.composite
     def build(draw):
         kind = draw(st.sampled_from(['A', 'A', 'B', 'B', 'B']))
-        q = draw(gen.unit_quaternions(allow_denormal=False)) if kind == 'A' else draw(class_b_quaternion())
+        q = draw(st.one_of(gen.unit_quaternions(allow_denormal=False), gen.unit_quaternions(allow_denormal=False), gen.pose_quaternions())) if kind == 'A' else draw(class_b_quaternion())
         return {'q': q, 'dip': draw(st.one_of(gen.fl(-80.0, 80.0), st.sampled_from([0.0, 60.0, -60.0, 80.0, -80.0, 5.0]))),
                 'frame': draw(st.sampled_from(['NED', 'ENU'])),
                 's_a': draw(st.one_of(gen.log_uniform(-2, 3), st.just(1.0), st.just(9.81))),
@@ -81,12 +81,12 @@ def oleq_rate(w, dip):
 def _pose(q):
     R = oracle.q2R(q)
     ang = oracle.qangle([1, 0, 0, 0], q)
+    if abs(R[2, 2] + 1) < 1e-12:
+        return 'inverted'           # a half-turn about a horizontal axis
     if ang > math.pi - 1e-6:
         return 'half_turn'
     if abs(R[2, 2] - 1) < 1e-12:
         return 'level'
-    if abs(R[2, 2] + 1) < 1e-12:
-        return 'inverted'
     if abs(R[2, 2]) < 1e-12:
         return 'z_horizontal'
     return 'generic'
